@@ -128,9 +128,9 @@ CHECKS['C13'] = dict(
 NOT_APPLICABLE = {
 }
 
-FULL_IN_QUICK = {'C01', 'C02', 'C03', 'C04', 'C05', 'C06', 'C07', 'C08', 'C09', 'C10', 'C11', 'C14', 'C15', 'C17', 'C18', 'C19'}
+FULL_IN_QUICK = {'C01', 'C02', 'C03', 'C04', 'C05', 'C06', 'C07', 'C08', 'C09', 'C10', 'C11', 'C12', 'C13', 'C14', 'C15', 'C16', 'C17', 'C18', 'C19', 'C20'}
 FULL_NOTE = (' Tiers: the full cell set of this property takes seconds, so the quick command runs the same cells as the thorough one (where the text above names a '
-             'reduced "quick" cell set, that reduction is no longer applied); only C12, C13, C16 and C20 have a reduced quick tier.')
+             'reduced "quick" cell set, that reduction is no longer applied); no property has a reduced quick tier any more.')
 
 HEAVY_NOTE = {
     'C12': ' Quick cell set as built: all 18 scales x 35 bit lengths (every 7th and the boundaries 1-3, 23-26, 52-56, 63-65, 126, 127) x both signs x both float types (2572 cells); thorough: all 127 bit lengths.',
